@@ -104,6 +104,8 @@ type world struct {
 	resultsID  uintptr
 	attackerID string
 	inv        string
+	released   int // ticks the attacker has handed over (counted by the driver from the operations it applies)
+	lastSteps  int
 }
 
 type pacer struct{ w *world }
@@ -238,6 +240,17 @@ func (w *world) main() {
 // invariant is evaluated by the driver after every transition.
 func (w *world) invariant(s *vsched.Sched) string {
 	n := len(w.delivered)
+	// count released hits: completed sends of the attacker goroutine (it only ever sends ticks)
+	if w.attackerID != "" && s.Steps != w.lastSteps {
+		w.lastSteps = s.Steps
+		l := s.Last
+		isChanOp := l.Kind == vsched.KSend || l.Kind == vsched.KRecv || l.Kind == vsched.KSelect
+		if isChanOp && l.Arm >= 0 && l.Thread != nil {
+			if (l.Thread.ID == w.attackerID && l.Send) || (l.Partner != nil && l.Partner.ID == w.attackerID && !l.Send) {
+				w.released++
+			}
+		}
+	}
 	if n > w.started {
 		return fmt.Sprintf("C02: %d results delivered but only %d hits started", n, w.started)
 	}
@@ -266,6 +279,9 @@ func (w *world) invariant(s *vsched.Sched) string {
 		}
 		// C03: free capacity is used: when only the environment can move and the
 		// attacker sits in the blocking tick hand-off, all M workers are busy
+		if w.released > w.started && uint64(w.started-n) < w.p.M && s.SysQuiescent() {
+			return fmt.Sprintf("C03: %d released hit(s) have not started although only %d of %d workers are busy (%d workers exist)", w.released-w.started, w.started-n, w.p.M, workers)
+		}
 		if uint64(w.started-n) != w.p.M {
 			if atk := s.Info(w.attackerID); atk != nil && !atk.Done && atk.HasPend && atk.Pending == vsched.KSelect && !atk.HasDef && atk.SendArms == 1 && !atk.Enabled && s.SysQuiescent() {
 				return fmt.Sprintf("C03: a released hit waits although only %d of %d workers are busy (%d workers exist)", w.started-n, w.p.M, workers)
